@@ -66,6 +66,13 @@ def main(tier, only=None):
             hs.append(e1.H(fn, "cc1/%s/failpath" % nm, unwind=40, timeout=300, defines=("WIT_FAIL",),
                            desc="witness placed on the failing exit path"))
         e1.run_set(chk, "c14/cc1.c", hs, workers=8, extra_src=[os.path.join(vf.REPO, "strings.c")])
+    if want("read"):
+        n = 4
+        chk.bounds += ["read: the real tokenize_file()/read_file() on every file of <= %d bytes whose k-th fread() (k <= %d, symbolic; the other reads deliver chunks of "
+                       "symbolic length) fails with the error indicator set: the result is NULL" % (n, n)]
+        chk.assumptions += ["read: memory-backed stdio model of harness/c18/readfile.c (fopen succeeds - a directory opens for reading - fread/ferror as POSIX documents)"]
+        e1.run_set(chk, "c18/readfile.c", [e1.H("h_readfile_error", "read/error-reported", unwind=n + 5, defines=("__NO_CTYPE", "RF_N=%d" % n),
+                                                 replace_calls=("tokenize:stub_tokenize",), timeout=900, native=False)])
     return chk.finish()
 
 
